@@ -83,6 +83,13 @@ func (rt *RoundTripper) cacheResponse(req *http.Request, resp *http.Response) {
 		return
 	}
 
+	// the cache key does not cover the request header fields a response depends on. So responses,
+	// which may only be reused for requests with matching values of such header fields (RFC 7234,
+	// section 4.1), are not stored.
+	if len(resp.Header.Values("Vary")) != 0 {
+		return
+	}
+
 	// stored responses cannot be validated with the origin server. So those, which must not be
 	// reused without validation (no-cache), are not stored.
 	directives, err := cacheobject.ParseResponseCacheControl(resp.Header.Get("Cache-Control"))
